@@ -25,5 +25,5 @@ var polyLast Type
 func VerifPolyLast() Type { return polyLast }
 
 // VerifIsFloat / VerifFloat: the package exports no float accessor.
-func VerifIsFloat(v Type) bool   { return v.typ == floatT }
-func VerifFloat(v Type) float64  { return v.f() }
+func VerifIsFloat(v Type) bool  { return v.typ == floatT }
+func VerifFloat(v Type) float64 { return v.f() }
